@@ -22,6 +22,10 @@ func init() {
 		if err := json.Unmarshal(raw, &cs); err != nil {
 			return err
 		}
+		if cs.Kind == c02SubKind {
+			c02SubCheck(ctx, 0, cs)
+			return nil
+		}
 		c02Check(ctx, 0, cs)
 		return nil
 	})
@@ -320,6 +324,10 @@ func runC02(ctx *Ctx) error {
 	}
 	for i, cs := range loadCorpus("C02") {
 		c02Check(ctx, i, cs)
+	}
+	// the other place where operations are selected: the `start` arm of the websocket handler
+	for i, cs := range c02SubCases() {
+		c02SubCheck(ctx, 50+i, cs)
 	}
 	for k := 0; k < cases; k++ {
 		r := ctx.Rand.Fork()
